@@ -1,4 +1,4 @@
-import MpVerif.C08.LemmasFeeds
+import MpVerif.C08.LemmasHistory
 /-!
 # C08 — property theorems
 
@@ -265,6 +265,31 @@ theorem C08_solution_objective (m : MatrixModel)
       omega
     rw [List.getD_eq_getElem?_getD, List.getElem?_eq_none this]
     simp [hj]
+
+/-! ## 7. Histories: several models through one `NLSolver` / one `PreprocessData` -/
+
+/-- `ExportPreproData` is a state update whose result does not depend on the previous state -/
+theorem C08_export_overwrites (old : Pd) (m : MatrixModel) :
+    exportPrepro old m = pdOf m ∧ (exportPrepro old m).vperm.length = m.n ∧ (exportPrepro old m).vpermInv.length = m.n := by
+  rw [exportPrepro_eq]
+  simp [pdOf]
+
+/-- after ANY history of loaded models (any initial state, any earlier models of any sizes) the exported
+permutation is exactly that of the LAST model -/
+theorem C08_history_last (pd0 : Pd) (ms : List MatrixModel) (m : MatrixModel) :
+    runHistory pd0 (ms ++ [m]) = pdOf m := by
+  unfold runHistory
+  rw [List.foldl_append]
+  exact exportPrepro_eq _ m
+
+/-- hence the solution of the last loaded model comes back in that model's caller order, whatever was
+loaded before: `SOLHandler_Easy` reading the stored state behaves as `onPrimal` / `onSuffix` of the last model -/
+theorem C08_history_solution (pd0 : Pd) (ms : List MatrixModel) (m : MatrixModel) (xs : List Rat) (hl : xs.length ≤ m.n)
+    (kind : Nat) (entries : List (Nat × Rat)) :
+    onPrimalPd (runHistory pd0 (ms ++ [m])) m.n xs = onPrimal m xs ∧
+    onSuffixPd (runHistory pd0 (ms ++ [m])) m.n m.m kind entries = onSuffix m kind entries := by
+  rw [C08_history_last]
+  exact ⟨onPrimalPd_pdOf m xs hl, onSuffixPd_pdOf m kind entries⟩
 
 /-! ## Non-vacuity -/
 
